@@ -285,6 +285,7 @@ func (c19) Run(ctx *Ctx, ci interface{}) (o Outcome) {
 			for _, s := range ss {
 				s.NumMutationsComparedToReferenceSequence(t.bag.Alphabet(), ref)
 				s.ListMutationsComparedToReferenceSequence(t.bag.Alphabet(), ref, false)
+				s.ListMutationsComparedToReferenceSequence(t.bag.Alphabet(), ref, true) // codon by codon
 				_ = s.NumGaps()
 				_ = s.NumGapsFromStart()
 				_ = s.NumGapsFromEnd()
